@@ -146,7 +146,7 @@ def _operations(optree, ctx):
         'transform': lambda: spec.transform(lambda s: (hook('f_node', s), s)[1], lambda s: (hook('f_leaf', s), s)[1]),
         'broadcast_to_common_suffix': lambda: spec.broadcast_to_common_suffix(spec2),
         'traverse': lambda: spec.traverse(leaves, fnode, f1),
-        'walk': lambda: spec.walk(leaves, fnode, f1),
+        'walk': lambda: spec.walk(leaves, lambda ty, md, ch: fnode(ch), f1),
         'entries_paths_accessors': lambda: (spec.entries(), spec.paths(), spec.accessors(), spec.children()),
         'treespec_from_collection': lambda: optree.treespec_from_collection(tree, none_is_leaf=nil, namespace=ns),
         'tree_partition': (lambda: optree.tree_partition(lambda x: (hook('fn', x), True)[1], tree, **kw))
